@@ -26,6 +26,8 @@ func (n node) String() string {
 		return "x"
 	case "nil":
 		return "nil"
+	case "tnil", "tnil2":
+		return n.T
 	case "CL":
 		return "C(x)"
 	}
@@ -77,6 +79,11 @@ func (n node) build(path string, o *buildOpts) any {
 		return "L" + path
 	case "nil":
 		return nil
+	case "tnil": // a typed nil pointer: a non-nil element as far as Index is concerned
+		return (*int)(nil)
+	case "tnil2":
+		var inner *string
+		return &inner
 	case "S", "E":
 		return n.buildStack(path, o)
 	case "A":
